@@ -477,7 +477,10 @@ TASK_KINDS = {
 }
 # react_flash (C03 only): a REACTIVE flash, vle(T, P, liquid_conversion=<reaction>), issued by another unit
 # operation on the same stream; it changes the totals by design and is not judged itself - the ordinary
-# flashes that follow on the same (warm) solver object are
+# flashes that follow on the same (warm) solver object are.  Measured reach: on these packages the two-phase
+# reactive path raises ValueError unless every chemical of the package is present (about two attempts in
+# three raise, counted under exc:react_flash), so this operation mostly exercises the error path; the seeded
+# change C03-r3-1 (state left behind by a successful two-phase reactive flash) stays out of reach.
 EDITOR_OPS = {'react_flash': 1.5, 'scale': 2, 'to_phase': 2, 'set_phases': 2, 'set_T': 1, 'set_P': 1, 'restart': 2,
               'reset_cache': 1.5, 'set_rows': 1, 'set_flow': 2, 'set_chem': 1.5}
 SCALE_FACTORS = [0.1, 0.25, 0.5, 2.0, 3.0, 10.0]
